@@ -7,7 +7,18 @@ default extension `.tex` appended **iff the written name has no extension** (TeX
 `if cur_ext="" then cur_ext:=".tex"; pack_cur_name`). A name has an extension iff a `.`
 occurs in its last component (after the last `/`: web2c's `more_name`, and what
 `FileLocation::parse` does). Nothing else is ever tried: not the bare name, not a second
-extension. Names are lists of character codes; areas (`:` `>`) are outside this model.
+extension. Areas (`:` `>`) are outside this model (the code answers them with the error of a
+file that cannot be read).
+
+**Characters, not bytes.** A name is the list of the *Unicode scalar values* of its characters
+(`Name = List Nat`), and every position in this file (`raw.length`, the `j` of `take j` /
+`drop (j + 1)`) is a character position. The Rust code holds names as UTF-8 `String`s and its
+positions (`raw_string.len()`, the slice bounds) are *byte* offsets; the abstraction is sound
+as long as every offset the code computes lies on a character boundary and denotes the same
+character as the model's position — which is what the correspondence checks with names that
+mix 1-, 2-, 3- and 4-byte characters and combining marks before and after every dot and `/`
+(a split that uses character counts as byte offsets cuts `ä.tex` inside `ä`). The harness sends
+code points and compares resolved names as strings of characters.
 
 `resolveTeX` is that rule (S). `resolveCode` transcribes the code (M):
 `crates/texlang/src/parse/filelocation.rs` `FileLocation::parse` (scan left to right, the
